@@ -268,11 +268,14 @@ def observe_contour(vc, case, want_pref=True, want_resort=True):
     inner = orig.__func__
     cap = {"calls": 0}
 
-    def wrapper(array, limit):
+    def wrapper(array, limit, key=None):
+        # key (since D75): the cells are ranked by their density, the probabilities are only accumulated
         cap["calls"] += 1
         cap["P"] = np.array(array, dtype=float, copy=True)
         cap["limit"] = float(limit)
-        res = inner(array, limit)
+        if key is not None:
+            cap["key"] = np.array(key, dtype=float, copy=True)
+        res = inner(array, limit) if key is None else inner(array, limit, key=key)
         cap["mask"] = np.array(res[0], dtype=float, copy=True)
         cap["last"] = float(res[1])
         return res
